@@ -30,11 +30,30 @@ THEOREMS = [
     (M, "C10.list_own_as_observer", "the list's own state = an unfiltered Observer fed the events not ignored by all project observers"),
     (M, "C10.prefix_case_witness", "negation witness: a value at an interior node hides its subtree in toJSON (why prefix-freeness is assumed)"),
     (M, "C10.exit_witness", "negation witness: updateStats with errors=0 raises the flag without a counted error"),
+    (M, "C10.getcontent_rec", "Tree.getContent yields the node's value first (also at an interior node), then per branch in sorted-key order the key at this depth and the sub-tree's content one level deeper"),
+    (M, "C10.getcontent_spec", "read as an outline, getContent() shows every stored path exactly once: one value row holding the list the lookup finds, under key rows whose keys concatenate to the path; nothing else; files in the order of sorted(path tuples); interior values included (no prefix-freeness needed)"),
+    (M, "C10.interior_shown_witness", "the interior-node case as it is: getContent shows the list of `a` and then that of `a/b`, toJSON only the first"),
+    (M, "C10.serialize_details_spec", "after any history with textual data serializeDetails() returns the newline-join of the row lines (indentation + '/'-joined key; one line per detail with ERROR:/WARNING:/+/-/file-comment prefixes, tuple keys joined with ' | '); the rows are, per path with displayed details, exactly details_spec, under keys concatenating to the file's path, files sorted"),
+    (M, "C10.serialize_details_total_iff", "after a history over modelled files serializeDetails returns iff the data of every displayed notification is textual; otherwise TypeError"),
+    (M, "C10.line_of_row", "the lines of one getContent row and the text of every kind of details item, spelled out"),
+    (M, "C10.list_serialize_details_spec", "the same for the ObserverList itself (what the command prints): details of the events not ignored by all project observers"),
+    (M, "C10.serialize_details_witness", "negation witness: an error whose data is a tuple makes serializeDetails raise TypeError"),
+    (M, "C10.quiet_text_monotone", "raising quiet only removes (file path, detail line) pairs from what serializeDetails displays, order kept; the displayed files are a sublist"),
+    (M, "C10.list_quiet_text_monotone", "the same for the ObserverList at two quiet levels with equally filtered project observers"),
+    (M, "C10.quiet_text_lines_witness", "negation witness: the raw text lines are NOT a sublist (path compression changes key lines and indentation)"),
+    (M, "C10.summaries_total_iff", "serializeSummaries returns iff the list's summary does not mix None and str locales and (has no locale or there is a project observer); otherwise exactly TypeError resp. IndexError"),
+    (M, "C10.serialize_summaries_spec", "where it returns: the newline-join of one block per locale of the list's summary, locales sorted, columns = project observers (+ the list itself with more than one)"),
+    (M, "C10.summary_block", "a block: `locale:`, the ten keys in fixed order (rows with a non-zero column only; key left-aligned in 12, cells ' {:6}', blank for zero/missing), then changed*100 // (changed+unchanged+report+missing) of the last column, <= 100, 0 if nothing was counted"),
+    (M, "C10.summaries_never_raise", "after any history through a list with >= 1 project observer over files whose locales are all str or all None, serializeSummaries returns"),
+    (M, "C10.summaries_witness", "negation witnesses: no project observers + stats -> IndexError; a None locale next to a str locale -> TypeError"),
 ]
 PARTIAL = [
-    "the text renderings (ObserverList.serializeDetails via Tree.getContent, serializeSummaries) are modelled and compared "
-    "differentially but have no theorem; the details theorems speak about the tree, its lookup and toJSON",
-    "the list's own details are covered through list_own_as_observer + details_spec (no separate statement)",
+    "quiet_text_monotone is proved for the (file path, detail line) pairs and the displayed files; the literal claim 'the text lines at a "
+    "higher quiet level are a sublist' is false (quiet_text_lines_witness: path compression changes key lines and indentation)",
+    "the text theorems speak about the rows of getContent() (read as an outline by C10T.outline) and their lines; the key lines between two "
+    "value rows are characterised recursively (getcontent_rec), not in closed form from the list of files",
+    "serializeSummaries: the model rounds changed*100/total down with integer division; Python formats a float with %d (equal below 2^46 entries)",
+    "the list's own details are covered through list_own_as_observer + details_spec / list_serialize_details_spec",
 ]
 TRUSTED = [
     "hand-written models CLModel/Compare/Tree.lean (Tree.__get/toJSON/getContent) and CLModel/Compare/Observer.lean "
@@ -44,18 +63,23 @@ TRUSTED = [
 ]
 ASSUMPTIONS = [
     "quiet is a non-negative integer (argparse count)",
+    "text renderings: the data of error/warning notifications is a str, of missingEntity/obsoleteEntity a str or a tuple (TextData; what the callers pass)",
     "stats dicts use the eleven summary keys; an `errors` entry, which no caller passes, has a positive value (zero is probed separately)",
     "a File that has a module also has a locale (a None locale would become a None path segment)",
 ]
 LEVEL_TEXT = ("Lean 4 theorems over an executable transliteration of Tree, Observer, ObserverList and the exit-status expression: for ALL "
               "notification histories, filters and quiet levels the summaries equal the counts of non-ignored findings, details sit at "
               "exactly the path they were raised for (radix-tree invariant + refinement to a path->list map, toJSON complete for "
-              "prefix-free paths), quiet only removes details, and exit=1 iff errors were counted and not return_zero; the model is tied to "
-              "the Python by bounded-exhaustive + random differential runs, an independent oracle recomputes everything from the history, and "
+              "prefix-free paths; the printed text of serializeDetails shows every file's details exactly once under its own path, "
+              "interior paths included; serializeSummaries is total exactly off the TypeError/IndexError points and prints the counters), "
+              "quiet only removes details, and exit=1 iff errors were counted and not return_zero; the model is tied to "
+              "the Python by bounded-exhaustive + random differential runs, an independent oracle recomputes everything from the history "
+              "(reading the printed details outline and the summary table back), and "
               "whole-command runs over generated project trees tie commands.py")
 LEVEL_NOTE = ("trusted: Lean kernel; hand-written model validated by correspondence (dict order, set semantics, string formatting); "
               "filters assumed pure with values error/warning/ignore; toJSON completeness needs prefix-free paths (negation witness: an "
-              "interior value hides its subtree); exit theorem needs positive `errors` stats (witness: errors=0 sets the flag)")
+              "interior value hides its subtree); exit theorem needs positive `errors` stats (witness: errors=0 sets the flag); text lines are "
+              "not monotone in quiet, only the (file, detail) pairs (witness); serializeDetails needs textual data (witness: TypeError)")
 TECHNIQUE = "Lean 4 proof (radix-tree refinement, induction over histories) + differential correspondence + independent oracle + whole-command runs"
 
 STATKEYS = ["errors", "warnings", "missing", "missing_w", "report", "obsolete", "changed", "changed_w",
@@ -282,6 +306,7 @@ def expected_observer(case, acts, j):
     counts = {}
     error = False
     details = {}
+    lines = {}
     rets = []
     for i, ev in enumerate(case["events"]):
         f = case["files"][ev[2] if ev[0] == "n" else ev[1]]
@@ -320,7 +345,9 @@ def expected_observer(case, acts, j):
         if cat in DETAIL_CATS:
             item = cat + ":r" + own[0] if cat in FILE_CATS else cat + ":" + show_data(ev[3])
             details.setdefault("/".join(parts_of(f)), []).append(item)
-    return {"rets": rets, "counts": {k: v for k, v in counts.items() if v}, "error": error, "details": details}
+            lines.setdefault("/".join(parts_of(f)), []).append(render_detail(CAT_NAMES[cat], ev[3]))
+    return {"rets": rets, "counts": {k: v for k, v in counts.items() if v}, "error": error, "details": details,
+            "lines": lines}
 
 
 def show_data(d):
@@ -338,6 +365,205 @@ def counts_of(plain):
             if v:
                 out[(loc, k)] = v
     return out
+
+
+# ------------------------------------------------------------------ oracle for the text renderings
+CAT_NAMES = {"e": "error", "w": "warning", "me": "missingEntity", "oe": "obsoleteEntity", "mf": "missingFile",
+             "of": "obsoleteFile"}
+DETAIL_LEADS = ("ERROR: ", "WARNING: ", "+", "-")
+DETAIL_FILE_LINES = ("// add and localize this file", "// remove this file")
+SUMMARY_KEYS = ("errors", "warnings", "missing", "missing_w", "obsolete", "changed", "changed_w", "unchanged",
+                "unchanged_w", "keys")
+
+
+def render_detail(cat, val):
+    """the line the report owes a details item, without indentation (independent reference; `val` is the data
+    of the notification, ignored for file categories)"""
+    def name(k):
+        return " | ".join(x for x in k if x is not None) if isinstance(k, (list, tuple)) else k
+    if cat in ("error", "warning") and not isinstance(val, str):
+        return None         # not textual: outside what serializeDetails can print (text_judgeable says so)
+    if cat == "error":
+        return "ERROR: " + val
+    if cat == "warning":
+        return "WARNING: " + val
+    if cat == "missingEntity":
+        return "+" + name(val)
+    if cat == "obsoleteEntity":
+        return "-" + name(val)
+    return DETAIL_FILE_LINES[0] if cat == "missingFile" else DETAIL_FILE_LINES[1]
+
+
+def is_detail_line(body):
+    return body.startswith(DETAIL_LEADS) or body in DETAIL_FILE_LINES
+
+
+def text_judgeable(case):
+    """the printed outline can be read back unambiguously: no path segment looks like a details line or starts
+    with a space, no text contains a newline"""
+    for f in case["files"]:
+        if f[1] and f[2] is None:
+            return False
+        for seg in parts_of(f):
+            if seg.startswith(" ") or is_detail_line(seg) or "\n" in seg:
+                return False
+    for ev in case["events"]:
+        if ev[0] == "n" and ev[1] in DETAIL_CATS and ev[1] not in FILE_CATS:
+            d = ev[3]
+            if d is None or (ev[1] in ("e", "w") and not isinstance(d, str)):
+                return False
+            if any(x is not None and "\n" in x for x in (d if isinstance(d, (list, tuple)) else [d])):
+                return False
+    return True
+
+
+def parse_outline(text):
+    """read the report the way a person does: a key line at depth d (2d spaces) replaces the chain of keys from
+    level d on; details lines (indented one level deeper than the chain is long) belong to the file named by the
+    chain above them.  -> ([(path, [details lines])] in print order, None) or (None, complaint)"""
+    if text == "":
+        return [], None
+    stack, out, cur = [], [], None
+    for ln in text.split("\n"):
+        body = ln.lstrip(" ")
+        ind = len(ln) - len(body)
+        if ind % 2:
+            return None, "line %r has an odd indentation" % ln
+        if is_detail_line(body):
+            d = ind // 2 - 1
+            if d != len(stack):
+                return None, "details line %r at level %d under a chain of %d keys %r" % (ln, d, len(stack), stack)
+            if cur is None:
+                cur = ["/".join(stack), []]
+                out.append(cur)
+            cur[1].append(body)
+        else:
+            d = ind // 2
+            if d > len(stack):
+                return None, "key line %r at depth %d under a chain of %d keys %r" % (ln, d, len(stack), stack)
+            stack = stack[:d] + [body]
+            cur = None
+    return out, None
+
+
+TEXT_STATS = {}
+
+
+def _tick(name, n=1):
+    TEXT_STATS[name] = TEXT_STATS.get(name, 0) + n
+
+
+def oracle_details_text(case, exp_lines, results):
+    """serializeDetails(): every file with details appears exactly once, under keys that joined give its own
+    path, with exactly its details, one line each: = what the tree stores at every quiet level, = everything
+    raised (by construction from the history) at quiet 0"""
+    if not text_judgeable(case):
+        _tick("text.details.not_judgeable")
+        return None
+    _tick("text.details.judged")
+    if len(exp_lines) >= 2:
+        _tick("text.details.judged_2+files")
+    for q, r in enumerate(results):
+        dt = r["details_text"]
+        if "exc" in dt:
+            return "quiet=%d: serializeDetails() raised %s" % (q, dt["exc"])
+        rows, err = parse_outline(dt["text"])
+        if err:
+            return "quiet=%d: serializeDetails(): %s" % (q, err)
+        shown = {}
+        for path, lines in rows:
+            if path in shown:
+                return "quiet=%d: serializeDetails() shows the file %r twice" % (q, path)
+            shown[path] = lines
+        want = {"/".join(p): [render_detail(c, v) for c, v in items] for p, items in r["list_items"] if items}
+        if shown != want:
+            return "quiet=%d: serializeDetails() shows %r, the details tree stores %r" % (q, shown, want)
+        if q == 0 and shown != exp_lines:
+            return "quiet=0: serializeDetails() shows %r, raised (history): %r" % (shown, exp_lines)
+    return None
+
+
+def parse_summaries(text, ncols):
+    """-> ({locale or None: ({key: [ints per column]}, rate)}, None) or (None, complaint)"""
+    out = {}
+    if text == "":
+        return out, None
+    block = []
+    for ln in text.split("\n"):
+        block.append(ln)
+        if not (ln.endswith("% of entries changed") and ln[:-len("% of entries changed")].isdigit()):
+            continue
+        rate = int(ln[:-len("% of entries changed")])
+        body = block[:-1]
+        block = []
+        loc = None
+        if body and body[0].endswith(":") and not body[0].startswith(tuple(k.ljust(12) for k in SUMMARY_KEYS)):
+            loc = body[0][:-1]
+            body = body[1:]
+        rows = {}
+        for row in body:
+            key = row[:12].rstrip(" ")
+            cells = row[12:]
+            if key not in SUMMARY_KEYS or key in rows or len(cells) != 7 * ncols:
+                return None, "summary row %r (expected a key and %d cells of 7 characters)" % (row, ncols)
+            vals = []
+            for i in range(ncols):
+                c = cells[7 * i:7 * i + 7]
+                if c.strip() == "":
+                    vals.append(0)
+                elif c.startswith(" ") and c.strip().isdigit() and c == c.strip().rjust(7):
+                    vals.append(int(c))
+                else:
+                    return None, "summary cell %r in row %r" % (c, row)
+            rows[key] = vals
+        if loc in out:
+            return None, "locale %r printed twice" % (loc,)
+        out[loc] = (rows, rate)
+    if block:
+        return None, "trailing lines %r" % (block,)
+    return out, None
+
+
+def oracle_summaries_text(case, results):
+    """serializeSummaries(): per locale of the list's summary one block; every printed number is the (already
+    checked) counter of that observer, columns = project observers (+ the list with more than one); the
+    percentage is changed*100 // (changed+unchanged+report+missing) of the last column"""
+    nobs = len(case["observers"])
+    for q, r in enumerate(results):
+        own = r["list"]["summary"]
+        locs = [loc for loc, _ in own]
+        mixed = any(l is None for l in locs) and any(l is not None for l in locs)
+        st = r["summaries_text"]
+        if mixed or (locs and nobs == 0):
+            _tick("text.summaries.excluded_point." + ("raises" if "exc" in st else "returns"))
+            continue        # excluded points (TypeError from sorted / IndexError from summaries[-1]); contract probes
+        if "exc" in st:
+            return "quiet=%d: serializeSummaries() raised %s" % (q, st["exc"])
+        cols = [dict((loc, cs) for loc, cs in o["summary"]) for o in r["obs"]]
+        if nobs > 1:
+            cols.append(dict((loc, cs) for loc, cs in own))
+        if any(v >= 10 ** 6 for c in cols for cs in c.values() for v in cs):
+            continue        # wider cells; fixed-width reading does not apply
+        got, err = parse_summaries(st["text"], len(cols))
+        if err:
+            return "quiet=%d: serializeSummaries(): %s" % (q, err)
+        want = {}
+        for loc in locs:
+            rows = {}
+            for k in SUMMARY_KEYS:
+                vals = [c.get(loc, [0] * 11)[STATKEYS.index(k)] for c in cols]
+                if any(vals):
+                    rows[k] = vals
+            last = cols[-1].get(loc, [0] * 11)
+            ch, un, rep, mi = (last[STATKEYS.index(k)] for k in ("changed", "unchanged", "report", "missing"))
+            total = ch + un + rep + mi
+            want[loc or None] = (rows, ch * 100 // total if total else 0)
+        if got != want:
+            return "quiet=%d: serializeSummaries() prints %r, the counters are %r" % (q, got, want)
+        _tick("text.summaries.judged")
+        if len(want) >= 2 and len(cols) >= 2:
+            _tick("text.summaries.judged_2+locales_2+columns")
+    return None
 
 
 def oracle_history(case, acts, results):
@@ -389,6 +615,10 @@ def oracle_history(case, acts, results):
                         return "quiet %d->%d: %s details of %r grew: %r vs %r" % (q - 1, q, who, key, pstored.get(key), items)
                 if got["summary"] != prev["summary"] or got["error"] != prev["error"]:
                     return "quiet %d->%d: %s summary changed" % (q - 1, q, who)
+        if j is None:
+            bad = oracle_details_text(case, exp["lines"], results) or oracle_summaries_text(case, results)
+            if bad:
+                return bad
         if j is None and not zero_err_stats:
             total = sum(v for (loc, k), v in exp["counts"].items() if k == 0)
             want = 1 if (not case["rz"] and total > 0) else 0
@@ -621,6 +851,17 @@ def run(ctx):
     # excluded point of exit_iff_errors: an `errors` entry with value 0
     zero = {"files": [("de/a", None, "de")], "observers": [None], "events": [["s", 0, [[0, 0]]]], "rz": 0, "prefix_free": True}
     informational.append(zero)
+    # excluded points of the text theorems: non-textual data of a displayed error (serialize_details_total_iff),
+    # no project observer but counted stats, a None locale next to a str locale (summaries_total_iff)
+    text_probes = {
+        "details_error_tuple_data": {"files": [("de/a", None, "de")], "observers": [None],
+                                     "events": [["n", "e", 0, ["k", None]]], "rz": 0, "prefix_free": True},
+        "summaries_no_observers_stats": {"files": [("de/a", None, "de")], "observers": [],
+                                         "events": [["s", 0, [[2, 1]]]], "rz": 0, "prefix_free": True},
+        "summaries_none_and_str_locale": {"files": [("a", None, None), ("de/b", None, "de")], "observers": [None],
+                                          "events": [["n", "e", 0, "m"], ["n", "e", 1, "m"]], "rz": 0, "prefix_free": True},
+    }
+    informational += list(text_probes.values())
     allh = hist + informational
     out.count("obs.cases", len(allh))
     lines = []
@@ -652,6 +893,10 @@ def run(ctx):
         if case is zero:
             out.contracts["errors_zero_stats_sets_flag"] = results[0].get("exit")
             bad = None
+        for name, pc in text_probes.items():
+            if case is pc:
+                which = "details_text" if name.startswith("details") else "summaries_text"
+                out.contracts["text_probe." + name] = results[0].get(which, {}).get("exc", "returns")
         if bad:
             out.violations.append({"what": "Observer: " + bad, "op": "obs", "finding": finding_of(bad, case),
                                    "input": {k: case[k] for k in ("files", "observers", "events", "rz", "prefix_free")}})
@@ -669,6 +914,9 @@ def run(ctx):
         out.count("obs.observers=%d" % len(case["observers"]))
         if len(out.samples) < 5 and len(case["events"]) >= 6 and len(case["observers"]) >= 2 and ">{" in c0:
             out.samples.append({"op": "obs", "case": case, "quiet0": c0[:1500]})
+    for k, v in sorted(TEXT_STATS.items()):
+        out.count("obs." + k, v)
+    TEXT_STATS.clear()
     # ---------------- whole command
     rngc = ctx.rng("c10", "cmd")
     nproj = ctx.n(12, 150)
